@@ -9,6 +9,7 @@ output are run with optimize=0 and optimize=1.
 import random
 
 from ..common import main_wrapper, sha, MachineryError
+from . import _suitecorpus
 from .. import tlc, local, suitegen, inputs
 
 PID = 'C05'
@@ -68,7 +69,9 @@ def run(args, rep):
                       replay={'kind': 'suite', 'check': 'C05', 'ctx': o['ctx'], 'env': o['env'], 'blk': o['blk'], 'opts': o['opts'], 'doc_use': rid.split('+')[1] if '+' in rid else 'load'})
     for o in list(keep.values())[:1] + [x for x in keep.values() if x['out_blk'] != x['blk']][:2]:
         rep.sample({'context': o['ctx'], 'block': o['blk'], 'options': o['opts'], 'output_block': o['out_blk'], 'source': o.get('_src', '')[-300:]})
-    rep.exhaustive = (args.tier != 'quick')
+    # real modules: erase the documented rewrites on both sides and compare (tied to SuiteS.tla case by case first)
+    _suitecorpus.corpus_section(args, rep, rng)
+    rep.exhaustive = False
     nsym = len(set(tuple(st) for c in c1 for st in c['blk']))
     nctx = len(set(c['ctx'] for c in c1))
     rep.rule = ('cases = (context, environment, block, options) exported by TLC from Suite.tla: every block of length 1 (%d cases) and length 2 (%d cases; '
